@@ -844,6 +844,11 @@ def check(program, rep):
         C15.r1_encoder(program, folder, rep)
     rep.guard("C15-R1", wire_rule, program, rep)
     rep.floor("C07-R1", 25)
+    # arguments handed to package functions under the wrong name / same-
+    # named optional parameters not passed on (NAMELINK, DESIGN.md 9.13)
+    from .. import namelink as _nl
+    rep.guard("C07-R6", _nl.rule, program, rep, "C07-R6",
+              [m for m in sorted(program.modules) if m.startswith("rig.machine_control")])
     return finish(rep, program, EXPLANATION, NOT_DECIDED,
                   trusted=["slice-length and floor-division axioms of the "
                            "LININV engine", "role table in roles.py"])
